@@ -280,7 +280,10 @@ class FlowIRExperimentConfiguration:
 
         system_vars = system_vars or {}
         config_patches = config_patches or {}
-        variable_files = list(set(variable_files or []))
+        # VV: Drop duplicate paths but keep the order given (a path that is listed more than once keeps its last
+        # position) - iterating a set() here made the layering order depend on the string hash seed of the process
+        variable_files = list(variable_files or [])
+        variable_files = [p for i, p in enumerate(variable_files) if p not in variable_files[i + 1:]]
 
         out_errors = []
         self.file_format = file_format
@@ -481,7 +484,10 @@ class FlowIRExperimentConfiguration:
 
         systemvars = systemvars or {}
         config_patches = config_patches or {}
-        variable_files = list(set(variable_files or []))
+        # VV: Drop duplicate paths but keep the order given (a path that is listed more than once keeps its last
+        # position) - iterating a set() here made the layering order depend on the string hash seed of the process
+        variable_files = list(variable_files or [])
+        variable_files = [p for i, p in enumerate(variable_files) if p not in variable_files[i + 1:]]
 
         out_errors = []
 
